@@ -8,7 +8,8 @@
 (***************************************************************************)
 EXTENDS Service, Json
 
-CONSTANT MaxOps
+CONSTANTS MaxOps,
+          Macro     \* TRUE: coarse alphabet for long registration histories (C13): Probe = connect, accept, introspect, close
 VARIABLE sched
 gvars == <<vars, sched>>
 
@@ -22,6 +23,21 @@ Quiescent == ~SrvBusy /\ ~HBusy /\ sdpc # "cleared" /\ bdpc = "idle" /\ rgpc = "
 Op(o) == sched' = Append(sched, o)
 Hows == IF Ifaces = {} THEN {"close", "abort", "herr"} ELSE {"close", "introspect"}
 
+(* net effect of one well-behaved client: connect, be accepted and handled, introspect, close, be released *)
+ProbeStep(c) ==
+  /\ cst[c] = "idle" /\ spc = "accept" /\ listener # 0 /\ lstate[listener] = "open" /\ sl = listener
+  /\ cst' = [cst EXCEPT ![c] = "released"] /\ cl' = [cl EXCEPT ![c] = listener]
+  /\ UNCHANGED <<running, listener, lstate, nextid, counter, wg, names, spc, sl, tmo, acc, sret, rounds, expiries,
+                 sdpc, bdpc, rgpc, rgarg, rgret, gate, g_sdWaiting, g_sdDoneAt, g_servedEp, g_regs>>
+MacroStep ==
+  /\ Len(sched) < MaxOps
+  /\ \/ spc = "idle" /\ B_Check /\ Op([op |-> "Install"])
+     \/ ServeStart(FALSE, FALSE) /\ Op([op |-> "Serve", timeout |-> FALSE, gate |-> FALSE])
+     \/ (\E d \in Clients : cst[d] = "idle")
+          /\ LET c == CHOOSE d \in Clients : cst[d] = "idle" IN ProbeStep(c) /\ Op([op |-> "Probe", c |-> c])
+     \/ sdpc = "idle" /\ spc # "idle" /\ (S_All \/ S_Clear) /\ Op([op |-> "Shutdown"])
+     \/ \E i \in Ifaces : R_Start(i) /\ Op([op |-> "Register", i |-> i])
+     \/ sdpc = "done" /\ S_Again /\ UNCHANGED sched
 EnvStep ==
   /\ Len(sched) < MaxOps
   /\ \/ spc = "idle" /\ B_Check /\ Op([op |-> "Install"])
@@ -39,7 +55,7 @@ EnvStep ==
 SrvInternal == D_GetL \/ L_SetRunning \/ L_Check \/ L_Refresh \/ L_AcceptClosed \/ L_Timeout \/ L_AccErr
                \/ L_Inc \/ L_Spawn \/ T_Teardown \/ T_Wait \/ T_Return
 SvcStep == (SrvInternal \/ HNext \/ S_Close \/ B_Set \/ B_Again \/ R_Insert \/ R_Again) /\ UNCHANGED sched
-GNext == IF Quiescent THEN EnvStep ELSE SvcStep
+GNext == IF Quiescent THEN (IF Macro THEN MacroStep ELSE EnvStep) ELSE SvcStep
 GInit == Init /\ sched = <<>>
 GSpec == GInit /\ [][GNext]_gvars
 
